@@ -83,6 +83,48 @@ def check_run_argument_binding(A, R: Report, rid: str):
             'run() arguments are not bound by their own name from input tasks / declared parameters: ' + '; '.join(sorted(set(problems))), witness=[pretty(t)[:300]], where=where(fra))
 
 
+def input_name_problems(digest_arg):
+    """Problems with `name=key` of the inputs inside the hashed text; None when the binding is not recognised.
+    The name must be the input's declared name with exactly the own namespace prefix (`<ns>::`) removed - nothing
+    more (whole namespace path, first segment only) and nothing textual (replace anywhere in the name)."""
+    from ..terms import assume
+    maps = []
+    for x in dag_nodes(digest_arg):
+        if x[0] == 'join':
+            m = x[2]
+            while m[0] == 'sorted':
+                m = m[1]
+            if m[0] == 'map' and len(m[1]) == 2 and m[2][0] == 'cat':
+                maps.append(m)
+    if not maps:
+        return None
+    problems = []
+    for m in maps:
+        n, k = m[1]
+        parts = m[2][1]
+        if len(parts) != 3 or parts[1][0] != 'lit' or not parts[1][1]:
+            problems.append('inputs are not rendered as name <separator> key')
+            continue
+        name_t, key_t = parts[0], parts[2]
+        if key_t != k:
+            problems.append('the value bound to an input name is not the input\'s key')
+        nss = {x for x in dag_nodes(name_t) if x[0] == 'attr' and x[2] == 'namespace'}
+        if name_t == n:
+            continue   # full declared name (also fine: no stripping at all is decided by C02)
+        if len(nss) != 1:
+            problems.append('the input name in the hashed text is not the declared name minus the own namespace prefix')
+            continue
+        ns = next(iter(nss))
+        with_ns = assume(name_t, lambda c: True if c == ns else (False if c == ('cmp', 'Is', ns, ('lit', None)) else None))
+        without = assume(name_t, lambda c: False if c == ns else (True if c == ('cmp', 'Is', ns, ('lit', None)) else None))
+        strip = ('slice', n, ('call', '+', (('call', 'len', (ns,)), ('lit', 2))), ('lit', None))
+        strip2 = ('method', n, 'removeprefix', (('cat', (ns, ('lit', '::'))),))
+        from ..terms import normalise
+        if with_ns not in (normalise(strip), normalise(strip2)) or without != normalise(n):
+            problems.append('the input name in the hashed text is not the declared name minus exactly the own namespace prefix')
+    return sorted(set(problems))
+
+
 def run(A, R: Report, thorough: bool):
     R.explanation = ('A result can only be foreign if a stored file is loaded although it was not written for this computation, two computations share a location, two computations share a task '
                      'object, or a task reads values that are not its own. Each has a structural gate decided here: control dependence of the load; dependency facts of the symbolic key term; '
@@ -130,6 +172,13 @@ def run(A, R: Report, thorough: bool):
                 ok_b = True
         R.check(ok_b, 'R01.2', 'key: input section', key_of('inputs-in-digest', ok_b), 'every (name, key) of self.input_tasks is hashed',
                 'not every input task (name and key) reaches the hashed text: an upstream change would not move this task\'s result', witness=[pretty(digest_arg)[:200]], where=where(K.f_key))
+        # (c) the name under which an input is bound: the declared input name minus exactly the own namespace prefix
+        probs = input_name_problems(digest_arg)
+        if probs is None:
+            R.undecided('R01.2', 'key: input names', 'input binding in the hashed text not recognised', where=where(K.f_key))
+        else:
+            R.check(not probs, 'R01.2', 'key: input names', key_of('input-names', probs), 'name = input name without the own namespace prefix; key = the input\'s key',
+                    '; '.join(probs) + ': two different wirings (same upstream results attached under other names / namespaces) get the same key', witness=[pretty(digest_arg)[:300]], where=where(K.f_key))
     reg_t = K.piece('ParameterRegistry.repr')
     full = False
     for m in [x for x in dag_nodes(reg_t) if x[0] == 'map']:
@@ -275,6 +324,15 @@ def run(A, R: Report, thorough: bool):
     R.rule('R01.9', 'context values reach a config only through deepcopy, and merging contexts never mutates or aliases its inputs', floor=2)
     from .c09 import check_context_isolation
     check_context_isolation(A, R, 'R01.9')
+    # ---- R01.10 a config is what its file says now: construction reads the file, it keeps no parse state across configs
+    from .purity import check_stateless
+    R.rule('R01.10', 'Config / Context construction keeps no state outside the new object (no parse cache that could serve an earlier version of an edited file)', floor=2)
+    for cname in ('Config', 'Context'):
+        ci = A.cls(cname)
+        init = ci.lookup('__init__')
+        check_stateless(A, R, 'R01.10', f'{cname}(...) construction', [Ctx(init, ('inst', ci))],
+                        'a chain built after the config file was edited can be configured with the values parsed earlier: results of the old parameter values are returned for the new ones',
+                        allow=lambda e: e.kind == 'ATTR_STORE', at=where(init))
 
     # ---- R01.7
     R.rule('R01.7', 'class-level parameter declarations pass deepcopy before they reach the task\'s ParameterRegistry', floor=1)
